@@ -823,6 +823,27 @@ def pred_gradient(n, band, e, g, ks) -> list[tuple[str, str]]:
         if abs(tt - 1.0) > 1e-9:
             out.append(("tangent-unit:find_tangent_differences", f"tangent of image {i} has squared length {tt}"))
             continue
+        # the tangent itself, judged by the documented upwind scheme (Henkelman & Jonsson 2000) written here: towards
+        # the higher neighbour on a slope; at a strict extremum both neighbours, the LARGER energy step weighting the
+        # side of the higher neighbour.  Only where the scheme is unambiguous (no equal energies / equal steps), up to sign.
+        ef = [float(x) for x in e]
+        dn_, dp_ = ef[i + 1] - ef[i], ef[i] - ef[i - 1]
+        ref_t = None
+        if dn_ > 0 and dp_ > 0:
+            ref_t = band_a[i + 1] - band_a[i]
+        elif dn_ < 0 and dp_ < 0:
+            ref_t = band_a[i] - band_a[i - 1]
+        elif dn_ * dp_ < 0 and ef[i + 1] != ef[i - 1] and abs(dn_) != abs(dp_):
+            big, small = max(abs(dn_), abs(dp_)), min(abs(dn_), abs(dp_))
+            wp, wm = (big, small) if ef[i + 1] > ef[i - 1] else (small, big)
+            ref_t = (band_a[i + 1] - band_a[i]) * wp + (band_a[i] - band_a[i - 1]) * wm
+        if ref_t is not None and float(np.linalg.norm(ref_t)) > 1e-9 * (1.0 + float(np.max(np.abs(band_a)))) * max(1e-300, max(abs(dn_), abs(dp_), 1.0) if dn_ * dp_ < 0 else 1.0):
+            rn = ref_t / float(np.linalg.norm(ref_t))
+            if abs(float(rn @ t)) < 1.0 - 1e-9:
+                out.append(("tangent-upwind:find_tangent_differences",
+                            f"image {i} (energies {ef[i - 1]!r}, {ef[i]!r}, {ef[i + 1]!r}): the tangent used in the band "
+                            f"gradient is {t.tolist()}, the upwind energy-weighted tangent is +-{rn.tolist()}"))
+                continue
         gi = np.array(g[i], dtype=float)
         nonspring = total[i] - spring[i]
         if abs(float(nonspring @ t)) > 1e-9 * scale:
